@@ -75,7 +75,7 @@ class C12(Check):
 
     def strategy(self, tier):
         # quick: mutation operators that usually keep the fixture parsable (fewer exclusions); thorough: all operators
-        return fixlib.fix_case(tier=tier, kinds=[7, 7, 8, 8, 3, 2, 6, 1, 0] if tier == "quick" else None)
+        return fixlib.fix_case(tier=tier, kinds=[7, 7, 8, 8, 3, 2, 6, 1, 0] if tier == "quick" else None, structure=True)
 
     def examples(self, tier):
         return 70 if tier == "quick" else 1500
